@@ -8,9 +8,9 @@ set_option linter.unusedSectionVars false
 namespace Ucan.Tie
 open Ucan Ucan.GoM
 
-variable {D C : Type} [DecidableEq D]
+variable {D C S : Type} [DecidableEq D]
 
-theorem toDlg_sub_ne (undef sub : D) (pol) (g : Gen.DlgTok D) (hs : sub ≠ undef) :
+theorem toDlg_sub_ne (undef sub : D) (pol) (g : Gen.DlgTok D S) (hs : sub ≠ undef) :
     ((toDlg undef pol g).sub ≠ some sub) ↔ g.subject ≠ sub := by
   unfold toDlg
   by_cases h : g.subject = undef
@@ -20,7 +20,7 @@ theorem toDlg_sub_ne (undef sub : D) (pol) (g : Gen.DlgTok D) (hs : sub ≠ unde
 /-- the alignment loop of `verifyProofs` from position `k`: it fails exactly where the model's `proofLoop`
 fails, with the same error class, and otherwise runs to the end of the proof list (no panic: every
 `delegations[i]` is in range because one delegation was loaded per proof CID; no fuel exhaustion) -/
-theorem verifyProofs_loop (undef : D) (pol) (g : Gen.InvTok D C) (ds : List (Gen.DlgTok D)) (sub : D)
+theorem verifyProofs_loop (undef : D) (pol) (g : Gen.InvTok D C) (ds : List (Gen.DlgTok D S)) (sub : D)
     (hs : sub ≠ undef) (hlen : ds.length = g.proof.length) (fuel k : Nat) (hf : ds.length - k < fuel)
     (hk : k ≤ ds.length) (cmd : Bytes) (iss : D) :
     match Chain.proofLoop sub iss cmd ((ds.drop k).map (toDlg undef pol)) with
@@ -77,7 +77,7 @@ theorem verifyProofs_loop (undef : D) (pol) (g : Gen.InvTok D C) (ds : List (Gen
 C05 are about) whenever one delegation was loaded per proof CID (what `loadProofs` guarantees,
 `loadProofs_length`) and the invocation's subject is a defined DID (what `validate()` guarantees). -/
 theorem Inv_verifyProofs_eq {X : Type} (x : X) (args : Node) (undef : D) (pol) (g : Gen.InvTok D C)
-    (ds : List (Gen.DlgTok D)) (hs : g.subject ≠ undef) (hlen : ds.length = g.proof.length) :
+    (ds : List (Gen.DlgTok D S)) (hs : g.subject ≠ undef) (hlen : ds.length = g.proof.length) :
     Gen.Inv_verifyProofs g ds =
       (Chain.verifyProofs (toInv x args g) (ds.map (toDlg undef pol))).mapError chainErr := by
   unfold Gen.Inv_verifyProofs Chain.verifyProofs
